@@ -4,7 +4,7 @@ from typing import TYPE_CHECKING
 
 from funtracks.exceptions import InvalidActionError
 
-from ..actions._base import ActionGroup
+from ..actions._base import ActionGroup, atomic
 from .user_add_edge import UserAddEdge
 from .user_delete_edge import UserDeleteEdge
 
@@ -28,6 +28,7 @@ class UserSwapPredecessors(ActionGroup):
             nodes have the same predecessor, or if neither node has a predecessor.
     """
 
+    @atomic
     def __init__(
         self,
         tracks: SolutionTracks,
